@@ -63,6 +63,8 @@ class C19Groundwater(Monitor):
         # model happens to hold - otherwise any defect that corrupts zMid would be filed under the known finding F11
         user_dz = np.round(np.array((ctx.spec.get("soil") or {}).get("dz") or [0.1] * 12, dtype=float), 2)
         self.deepened = not (len(user_dz) == self.g.ncomp and np.allclose(user_dz, self.g.dz, atol=1e-9))
+        ub = np.cumsum(user_dz)
+        self.user_mid = ub - user_dz / 2 if len(user_dz) == self.g.ncomp else None   # centres BEFORE any deepening
         if self.deepened:
             ctx.hit("deepened_profile")
         gw = ctx.spec.get("gw")
@@ -128,7 +130,8 @@ class C19Groundwater(Monitor):
                     t,
                     observed={"comp": i, "th": float(post.th_end[i]), "centre": float(g.zmid[i]), "z_gw": zgw},
                     expected={"th_s": float(g.th_s[i])},
-                    stale_mid_above_table=bool(self.stale_mid[i] < zgw),
+                    # F11 exactly: the profile was deepened and the model judged this compartment by its PRE-deepening centre
+                    stale_mid_above_table=bool(self.user_mid is not None and abs(self.stale_mid[i] - self.user_mid[i]) < 1e-9 and self.user_mid[i] < zgw),
                     deepened=self.deepened,
                 )
         if cr > 0:
